@@ -9,12 +9,6 @@ def SAdj (E : List (Nat Ã— Nat)) (a b : Nat) : Prop := (a, b) âˆˆ E âˆ¨ (b, a) â
 
 theorem adj_iff_sadj (t : RTree) (a b : Nat) : Adj t a b â†” SAdj (edges t) a b := Iff.rfl
 
-theorem edgesL_append (i : Nat) (l1 l2 : List RTree) :
-    edgesL i (l1 ++ l2) = edgesL i l1 ++ edgesL i l2 := by
-  induction l1 with
-  | nil => simp
-  | cons t ts ih => simp [ih]
-
 theorem reroot_node (c : Nat) (up : List RTree) (i : Nat) (ks : List RTree) :
     reroot c up (node i ks) = if i = c then some (node i (up ++ ks)) else rerootL c i up [] ks := by
   simp [reroot]
